@@ -23,12 +23,23 @@ from liquid2.builtin import parse_string_or_identifier
 from liquid2.builtin import string_or_identifier_str
 from liquid2.builtin import parse_string_or_path
 from liquid2.exceptions import LiquidSyntaxError
+from liquid2.exceptions import LiquidTypeError
 from liquid2.exceptions import TemplateNotFoundError
 
 if TYPE_CHECKING:
     from liquid2 import RenderContext
     from liquid2 import TokenT
     from liquid2.builtin import KeywordArgument
+
+
+def _template_name(name: object, token: TokenT) -> str:
+    """Return the evaluated template name as a string."""
+    try:
+        return str(name)
+    except ValueError as err:  # an int beyond the int to str digit limit
+        raise LiquidTypeError(
+            f"expected a template name, found {name.__class__.__name__}", token=token
+        ) from err
 
 
 class IncludeNode(Node):
@@ -73,11 +84,11 @@ class IncludeNode(Node):
 
     def render_to_output(self, context: RenderContext, buffer: TextIO) -> int:
         """Render the node to the output buffer."""
-        name = self.name.evaluate(context)
+        name = _template_name(self.name.evaluate(context), self.name.token)
 
         try:
             template = context.env.get_template(
-                str(name), context=context, tag=self.tag
+                name, context=context, tag=self.tag
             )
         except TemplateNotFoundError as err:
             err.token = self.name.token
@@ -120,11 +131,13 @@ class IncludeNode(Node):
         self, context: RenderContext, buffer: TextIO
     ) -> int:
         """Render the node to the output buffer."""
-        name = await self.name.evaluate_async(context)
+        name = _template_name(
+            await self.name.evaluate_async(context), self.name.token
+        )
 
         try:
             template = await context.env.get_template_async(
-                str(name), context=context, tag=self.tag
+                name, context=context, tag=self.tag
             )
         except TemplateNotFoundError as err:
             err.token = self.name.token
